@@ -244,12 +244,16 @@ func (tp *typeParser) parse(gt reflect.Type, allowPtr bool) (*Type, error) {
 	case reflect.String:
 		return &Type{K: String}, kw("string")
 	case reflect.Int64, reflect.Int:
+		plain := &Type{K: I64}
+		if gt != reflect.TypeOf(int64(0)) {
+			plain.GoNamed = gt
+		}
 		if !tp.has {
-			return &Type{K: I64}, nil
+			return plain, nil
 		}
 		if tp.pos < len(tp.toks) && tp.toks[tp.pos] == "i64" {
 			tp.pos++
-			return &Type{K: I64}, nil
+			return plain, nil
 		}
 		name, err := tp.ident()
 		if err != nil {
